@@ -83,7 +83,7 @@ def cases(draw):
             # the symmetric key is known under the identifier 'k-mac-1', or under the empty identifier
             'kid': draw(st.sampled_from(['k-mac-1', 'k-mac-1', ''])),
             # direction S only: source and receiver get their keys / trust anchor from files named in the configuration
-            'via_files': draw(st.sampled_from([False, False, True])), 'keyset': draw(st.sampled_from([0, 0, 2]))}
+            'via_files': draw(st.sampled_from([False, False, True])), 'keyset': draw(st.sampled_from([0, 0, 2, 3]))}
 
 
 def strategy(tier):
@@ -108,6 +108,8 @@ def enumerate_cases(tier):
                'bcrc': 0, 'sec_crc': 0, 'alterations': [], 'identity': identity}
     yield {'direction': 'S', 'alg': -7, 'targets': ['payload'], 'scope': 0, 'addl': False, 'plen': 5, 'seed': 1, 'pcrc': 0, 'via_files': True,
            'keyset': 2, 'bcrc': 0, 'sec_crc': 0, 'alterations': [['tgt-data', 0, 1], ['pri-time', 0, 0], ['other-data', 0, 0], ['res-tag', 0, 3]]}
+    yield {'direction': 'S', 'alg': -7, 'targets': ['payload'], 'scope': 0, 'addl': False, 'plen': 5, 'seed': 1, 'pcrc': 0, 'via_files': True,
+           'keyset': 3, 'bcrc': 0, 'sec_crc': 0, 'alterations': [['tgt-data', 0, 1], ['pri-time', 0, 0], ['other-data', 0, 0], ['res-tag', 0, 3]]}
     for alg in (-7, -35):
         yield {'direction': 'S', 'alg': alg, 'targets': ['payload'], 'scope': 0, 'addl': False, 'plen': 5, 'seed': 1, 'pcrc': 0, 'via_files': True,
                'bcrc': 0, 'sec_crc': 0, 'alterations': [c for c in catalogue if not c[0].startswith('other-')][::2]}
@@ -209,11 +211,12 @@ def sign(case, out):
 
 
 def _keyset(case):
-    ''' Which fixture key set the source signs with: 0, or 2 (P-256 only: a public coordinate with a leading zero octet). '''
+    ''' Which fixture key set the source signs with: 0, or (P-256 only) 2: a public coordinate with a leading zero octet,
+    3: end-entity certificate without a subject key identifier. '''
     # (only where the source really is configured from files: see sign())
     from_files = case.get('via_files') and case.get('direction') == 'S' and case.get('targets') == ['payload'] \
         and (case.get('identity') or 'own') == 'own'
-    return 2 if from_files and case.get('keyset') == 2 and case.get('alg') == -7 else 0
+    return case['keyset'] if from_files and case.get('keyset') in (2, 3) and case.get('alg') == -7 else 0
 
 
 def receive(bundle_or_wire, alg, key_override=None, no_key=False, kid='k-mac-1', via_files=False, keyset=0):
